@@ -39,10 +39,11 @@ def distance_segment_to_segment(f1, f2, t1, t2):
     :param t2:
     :return: (distance, proj on f, proj on t, rel pos on f, rel pos on t)
     """
-    x1, y1 = f1
-    x2, y2 = f2
-    x3, y3 = t1
-    x4, y4 = t2
+    # Points can have a third (time) component
+    x1, y1 = f1[0], f1[1]
+    x2, y2 = f2[0], f2[1]
+    x3, y3 = t1[0], t1[1]
+    x4, y4 = t2[0], t2[1]
     n = ((y4 - y3) * (x2 - x1) - (x4 - x3) * (y2 - y1))
     lf = math.sqrt((x2 - x1) ** 2 + (y2 - y1) ** 2)
     lt = math.sqrt((x4 - x3) ** 2 + (y4 - y3) ** 2)
